@@ -141,16 +141,14 @@ pub enum Op {
 
 impl Op {
     pub fn is_read_only(&self) -> bool {
-        matches!(
-            self,
-            Op::Replay { .. }
-                | Op::CutPoints { .. }
-                | Op::CompactionStatus { .. }
-                | Op::CursorStatus { .. }
-                | Op::SelectionStatus { .. }
-                | Op::List
-                | Op::Get { .. }
-        )
+        match self {
+            Op::Replay { .. } | Op::CutPoints { .. } | Op::CompactionStatus { .. } | Op::CursorStatus { .. } | Op::SelectionStatus { .. } | Op::List | Op::Get { .. } => true,
+            // a dry run adds nothing, whatever else the request says and whatever it answers
+            Op::CompactionAuto { dry_run: Some(true), .. } | Op::CompactionSchedule { dry_run: Some(true), .. } => true,
+            // replay / cut points / the three status calls on an unknown thread id
+            Op::UnknownThread { which } => matches!(which % 9, 1..=5),
+            _ => false,
+        }
     }
     pub fn name(&self) -> &'static str {
         match self {
@@ -179,6 +177,23 @@ impl Op {
             Op::UnknownThread { .. } => "unknown_thread",
             Op::RawSession { .. } => "raw_session",
         }
+    }
+}
+
+/// Unknown thread ids: well-formed UUIDs that were never minted, and (from 90 up) ids a hostile or
+/// careless client could send - path-like, empty, over-long.
+pub const WEIRD_THREAD_IDS: &[&str] = &["../events", "..", ".", "", "a/b", "../snapshots/x", "../continuity_streams/../events", "events", "../../data/events", "%2e%2e%2fevents", "../events.jsonl", "x\u{0}y"];
+pub const UNKNOWN_THREAD_SPACE: u64 = 90 + 9 * 13;
+
+pub fn unknown_thread_id(which: u32) -> String {
+    if which < 90 {
+        return format!("00000000-0000-4000-8000-{:012}", which);
+    }
+    let k = ((which - 90) / 9) as usize;
+    if k < WEIRD_THREAD_IDS.len() {
+        WEIRD_THREAD_IDS[k].to_string()
+    } else {
+        "t".repeat(300)
     }
 }
 
@@ -908,7 +923,7 @@ res.acked_ids.push(id);
                 res.ok = store.get(&t).is_some();
             }
             Op::UnknownThread { which } => {
-                let t = format!("00000000-0000-4000-8000-{:012}", which);
+                let t = unknown_thread_id(*which);
                 res.thread = Some(t.clone());
                 let r: Result<(), String> = match which % 9 {
                     0 => store.append_message(&t, who, origin, "x".into()).map(|_| ()),
@@ -1162,7 +1177,7 @@ pub fn gen_op(rng: &mut Rng, allow_big: bool) -> Op {
         94 | 95 => Op::SelectionStatus { thread, limit: gen_small(rng) },
         96 => Op::List,
         97 => Op::Get { thread },
-        98 => Op::UnknownThread { which: rng.below(90) as u32 },
+        98 => Op::UnknownThread { which: rng.below(UNKNOWN_THREAD_SPACE) as u32 },
         _ => Op::RawSession { frames: rng.range(2, 5) as u32 },
     }
 }
